@@ -609,6 +609,16 @@ def ref_str(fn, recv, args):
         return ("v", tuple(ref_num(x) for x in recv))
     if fn == "to_code_points":
         return ("v", tuple(ref_num(ord(c)) for c in text))
+    if fn == "to_num":
+        # the grammar of Rust's f64::from_str: optional sign, then inf / infinity / nan (any case) or digits with an optional fraction and an
+        # optional exponent (at least one digit before or after the point); nothing else - no blanks, no underscores, no hex.  The value is
+        # the nearest double (Python's float() rounds correctly too), and a minus sign survives on zero.
+        t = text
+        m = re.fullmatch(r"[+-]?(?:(?:inf|infinity|nan)|(?:(?:[0-9]+\.?[0-9]*|\.[0-9]+)(?:[eE][+-]?[0-9]+)?))", t, re.I)
+        if not m or not t.isascii():
+            raise RefErr("ValueError")
+        x = float(t)
+        return ("n", "7ff8000000000000" if x != x else bits(x))      # one NaN (its sign and payload do not print)
     return None
 
 
@@ -785,6 +795,14 @@ NONSTRING_ARGS = [NIL, TRUE, N(1), V([]), V([97]), X]
 NONNUMBER_ARGS = [NIL, FALSE, S("1"), S(""), V([0]), X]
 
 
+NUM_TEXTS = ["0", "-0", "+0", "-00", "-000", "00", "-0.0", "0.0", "-0.", "-.0", "0e0", "-0e0", "-0e5", "1", "-1", "+1", "007", "-007", "1.5", "-1.5", "1.", ".5", "-.5", "+.5",
+             "1e3", "1E3", "1e+3", "1e-3", "-1e-3", "1.5e300", "1e308", "1e309", "-1e309", "1e-323", "1e-324", "4.9e-324", "2.4e-324", "2.5e-324", "1e-400", "-1e-400",
+             "9007199254740992", "9007199254740993", "-9007199254740993", "9223372036854775807", "9223372036854775808", "-9223372036854775808", "-9223372036854775809",
+             "18446744073709551616", "123456789012345678901234567890", "0.1", "0.30000000000000004", "1.7976931348623157e308", "1.7976931348623159e308",
+             "inf", "-inf", "+inf", "Inf", "INF", "infinity", "-Infinity", "nan", "NaN", "-nan", "+NaN",
+             "", " ", "-", "+", ".", "e", "e5", "1e", "1e+", "1e5.5", " 1", "1 ", "1_0", "0x10", "1.2.3", "--1", "+-1", "12a", "1,5", "١", "１", "infinit", "na", "in", "1f", "1d"]
+
+
 def gen_requests(rng, thorough):
     K = 3 if thorough else 2
     strs = [s.encode("utf-8") for s in strings_upto(K)]
@@ -870,6 +888,10 @@ def gen_requests(rng, thorough):
     extra = [s.encode("utf-8") for s in dict.fromkeys(extra)]
     recvs = strs + [s for s in extra if s not in set(strs)]
     class_recv = [s.encode("utf-8") for s in CLASS_RECV]
+    # texts of numbers for to_num: both zeros in integer and fraction spellings, signs, leading zeros, fractions without a digit on one side,
+    # exponents, the special names in several cases, boundary magnitudes, and texts other parsers accept but this one must refuse
+    for t in NUM_TEXTS:
+        reqs.append(mk_str("to_num", t.encode("utf-8"), []))
     zero_fns = [f for f, a in STR_ARITY.items() if a == 0]
     for s in recvs + class_recv:
         for fn in zero_fns:
